@@ -679,3 +679,239 @@ def r33_groupby_runs(ctx, include=None, rule='R33'):
                      'itertools.groupby only merges adjacent equal keys, the sequence is not sorted by the key, and the groups are '
                      'collected under their key: two occurrences that are apart give two groups and the second replaces the first')
     return n
+
+
+# ---------------------------------------------------------------------- R34 RUN-IDEMPOTENCE
+
+def rerun_state(class_node, base_nodes=()):
+    """State of a step object that a run leaves behind for the next run of the same object: attributes the constructor sets
+    (self.X = ...) that a method other than __init__ (a) mutates in place without any method re-creating them first, or
+    (b) rebinds to a value computed from their own previous value (self.X = f(self.X)).
+    -> [(kind, attribute, node)]"""
+    ctor = {}
+    for c in (class_node,) + tuple(base_nodes):
+        for m in c.body:
+            if isinstance(m, ast.FunctionDef) and m.name == '__init__':
+                for n in ast.walk(m):
+                    if isinstance(n, ast.Assign):
+                        for t in n.targets:
+                            for e in (t.elts if isinstance(t, (ast.Tuple, ast.List)) else [t]):
+                                if isinstance(e, ast.Attribute) and isinstance(e.value, ast.Name) and e.value.id == 'self':
+                                    ctor.setdefault(e.attr, n.value)
+    if not ctor:
+        return []
+    methods = [m for m in class_node.body if isinstance(m, ast.FunctionDef) and m.name != '__init__']
+    # attributes some run method re-creates (plain rebinding not depending on the old value): per-run state, reset by the class
+    reset = set()
+    for m in methods:
+        for n in ast.walk(m):
+            if isinstance(n, ast.Assign):
+                for t in n.targets:
+                    if isinstance(t, ast.Attribute) and isinstance(t.value, ast.Name) and t.value.id == 'self' and t.attr in ctor:
+                        reads = {x.attr for x in ast.walk(n.value) if isinstance(x, ast.Attribute) and isinstance(x.value, ast.Name)
+                                 and x.value.id == 'self'}
+                        if t.attr not in reads:
+                            reset.add(t.attr)
+    out = []
+    for m in methods:
+        for n in ast.walk(m):
+            def own(e):
+                return isinstance(e, ast.Attribute) and isinstance(e.value, ast.Name) and e.value.id == 'self' and e.attr in ctor
+            def const_key(c_):
+                return isinstance(c_, ast.Constant)
+            if isinstance(n, ast.Call) and isinstance(n.func, ast.Attribute) and n.func.attr in MUT and own(n.func.value) \
+                    and n.func.value.attr not in reset:
+                # setdefault / pop under a constant key settle after the first run (idempotent); growth does not
+                if n.func.attr in ('setdefault', 'pop', 'discard', 'remove', 'clear') and (not n.args or const_key(n.args[0])):
+                    # ... unless the entry itself is then grown: self.x.setdefault(k, []).append(v)
+                    par = getattr(n, '_parent', None)
+                    if not (isinstance(par, ast.Attribute) and par.attr in MUT):
+                        continue
+                out.append(('accumulates', n.func.value.attr, n))
+            elif isinstance(n, ast.Call) and isinstance(n.func, ast.Attribute) and n.func.attr in MUT and \
+                    isinstance(n.func.value, ast.Call) and isinstance(n.func.value.func, ast.Attribute) and \
+                    n.func.value.func.attr in ('setdefault', 'get') and own(n.func.value.func.value) and \
+                    n.func.value.func.value.attr not in reset:
+                out.append(('accumulates', n.func.value.func.value.attr, n))     # self.x.setdefault(k, []).append(v)
+            elif isinstance(n, (ast.Assign, ast.AugAssign, ast.Delete)):
+                tgts = n.targets if isinstance(n, (ast.Assign, ast.Delete)) else [n.target]
+                for t in tgts:
+                    if isinstance(t, ast.Subscript) and own(t.value) and t.value.attr not in reset and \
+                            not (isinstance(n, ast.Assign) and const_key(t.slice)):
+                        out.append(('accumulates', t.value.attr, n))
+                    if isinstance(n, ast.AugAssign) and own(t) and t.attr not in reset:
+                        out.append(('accumulates', t.attr, n))
+                    if isinstance(n, ast.Assign) and own(t) and t.attr not in reset:
+                        reads = {x.attr for x in ast.walk(n.value) if isinstance(x, ast.Attribute) and isinstance(x.value, ast.Name)
+                                 and x.value.id == 'self'}
+                        if t.attr in reads:
+                            out.append(('rebinds from itself', t.attr, n))
+    return out
+
+
+_R34_CONTROL = '''
+class Step:
+    def __init__(self, resources):
+        self.resources = resources
+        self.names = {}
+        self.seen = []
+        self.count = 0
+    def process_datapackage(self, dp):
+        self.resources = Matcher(self.resources, dp)
+        self.names[dp.name] = 1
+        self.seen = []
+        self.seen.append(dp)
+        self.count = 0
+        return dp
+'''
+
+
+def r34_run_idempotence(ctx, include=None, rule='R34'):
+    run = ctx.run
+    run.rule(rule, 'RUN-IDEMPOTENCE: what the constructor of a step stores (self.x = ...) is configuration: no other method mutates it in '
+                   'place (append / update / subscript store / +=) unless a method re-creates it for the run, and none rebinds it to a value '
+                   'computed from its own previous value (self.x = f(self.x)). Otherwise a second run of the same Flow object - which is '
+                   'how a checkpointed pipeline is run again - starts from what the first run left behind')
+    ctl = [c for c in ast.parse(_R34_CONTROL).body if isinstance(c, ast.ClassDef)][0]
+    got = sorted((k, a) for k, a, _ in rerun_state(ctl))
+    if got != [('accumulates', 'names'), ('rebinds from itself', 'resources')]:
+        raise AnalysisError('R34 self-check failed: %s' % got)
+    n = 0
+    for c in sorted(ctx.repo.classes.values(), key=lambda c: c.qualname):
+        if include is not None and not include(c):
+            continue
+        if not ctx.res.is_subclass(c, 'DataStreamProcessor') and c.name != 'DataStreamProcessor':
+            continue
+        bases = [b.node for b in c.mro[1:]]
+        hits = rerun_state(c.node, bases)
+        n += 1
+        if not hits:
+            run.ok(rule, c.where, c.qualname, 'no constructor-set state is accumulated into or rebound from itself by a run')
+        seen = set()
+        for kind, attr, node in hits:
+            if (kind, attr) in seen:
+                continue
+            seen.add((kind, attr))
+            run.fail(rule, where(ctx.repo, node), c.qualname, 'self.%s %s across runs' % (attr, kind),
+                     'self.%s is set by the constructor and %s in %s: running the same Flow object again (e.g. to resume from a '
+                     'checkpoint) continues from the state the previous run left' % (attr, 'mutated in place' if kind == 'accumulates'
+                                                                                      else 'rebound to a value computed from itself', c.name))
+    return n
+
+
+def _fixed_keys_update(call):
+    """x.update({...}) / x.update(dict(k=...)) / x.update(k=...) with literal keys: sets the same keys on every run (a reset of
+    those entries, not growth)"""
+    if call.func.attr != 'update':
+        return False
+    if not call.args:
+        return True
+    a = call.args[0]
+    if isinstance(a, ast.Dict):
+        return all(isinstance(k, ast.Constant) for k in a.keys)
+    return isinstance(a, ast.Call) and isinstance(a.func, ast.Name) and a.func.id == 'dict' and not a.args
+
+
+def closure_rerun_state(factory):
+    """Function-style steps: names bound by the factory (its parameters and locals) that the step function it returns grows in place
+    (append / extend / add / update / insert, a store under a computed key, +=): they live as long as the step object and carry what
+    one run recorded into the next.  -> [(name, node, inner function name)]"""
+    bound = {a.arg for a in factory.args.posonlyargs + factory.args.args + factory.args.kwonlyargs}
+    inner = []
+    stack = list(factory.body)
+    while stack:
+        n = stack.pop()
+        if isinstance(n, (ast.FunctionDef, ast.AsyncFunctionDef)):
+            inner.append(n)
+            continue
+        if isinstance(n, ast.Lambda):
+            continue
+        if isinstance(n, ast.Name) and isinstance(n.ctx, ast.Store):
+            bound.add(n.id)
+        stack.extend(ast.iter_child_nodes(n))
+    out = []
+    GROW = {'append', 'extend', 'add', 'update', 'insert', 'appendleft'}
+
+    def visit(fn, visible):
+        # names the nested function binds itself hide the factory's
+        a = fn.args
+        mine = {x.arg for x in a.posonlyargs + a.args + a.kwonlyargs}
+        nonlocal_ = set()
+        sub = []
+        st = list(fn.body)
+        while st:
+            n = st.pop()
+            if isinstance(n, (ast.FunctionDef, ast.AsyncFunctionDef)):
+                sub.append(n)
+                mine.add(n.name)
+                continue
+            if isinstance(n, ast.Lambda):
+                continue
+            if isinstance(n, ast.Nonlocal):
+                nonlocal_ |= set(n.names)
+            if isinstance(n, ast.Name) and isinstance(n.ctx, ast.Store):
+                mine.add(n.id)
+            if isinstance(n, ast.comprehension):
+                for t in ast.walk(n.target):
+                    if isinstance(t, ast.Name):
+                        mine.add(t.id)
+            st.extend(ast.iter_child_nodes(n))
+        vis = (visible - (mine - nonlocal_))
+        st = list(fn.body)
+        while st:
+            n = st.pop()
+            if isinstance(n, (ast.FunctionDef, ast.AsyncFunctionDef, ast.Lambda)):
+                continue
+            if isinstance(n, ast.Call) and isinstance(n.func, ast.Attribute) and n.func.attr in GROW and \
+                    isinstance(n.func.value, ast.Name) and n.func.value.id in vis and not _fixed_keys_update(n):
+                out.append((n.func.value.id, n, fn.name))
+            if isinstance(n, ast.Call) and isinstance(n.func, ast.Attribute) and n.func.attr in GROW and \
+                    isinstance(n.func.value, ast.Call) and isinstance(n.func.value.func, ast.Attribute) and \
+                    n.func.value.func.attr in ('setdefault', 'get') and isinstance(n.func.value.func.value, ast.Name) and \
+                    n.func.value.func.value.id in vis:
+                out.append((n.func.value.func.value.id, n, fn.name))
+            if isinstance(n, ast.Assign):
+                for t in n.targets:
+                    if isinstance(t, ast.Subscript) and isinstance(t.value, ast.Name) and t.value.id in vis and \
+                            not isinstance(t.slice, ast.Constant):
+                        out.append((t.value.id, n, fn.name))
+            if isinstance(n, ast.AugAssign) and isinstance(n.target, ast.Name) and n.target.id in vis and n.target.id in nonlocal_:
+                out.append((n.target.id, n, fn.name))
+            st.extend(ast.iter_child_nodes(n))
+        for g in sub:
+            visit(g, vis)
+    for g in inner:
+        visit(g, set(bound))
+    return out
+
+
+def r34_closure_state(ctx, include=None, rule='R34'):
+    """R34 for function-style steps (factories returning func(package) / func(rows) / func(row))."""
+    run = ctx.run
+    n = 0
+    for fi in sorted(ctx.repo.functions.values(), key=lambda f: f.qualname):
+        if isinstance(fi.node, ast.Lambda) or fi.parent is not None or fi.cls is not None:
+            continue
+        if include is not None and not include(fi):
+            continue
+        nested = [x for x in fi.node.body if isinstance(x, ast.FunctionDef)]
+        rets = [x for x in ast.walk(fi.node) if isinstance(x, ast.Return) and x.value is not None]
+        if not nested or not rets:
+            continue
+        # a factory hands out one of its nested functions (possibly wrapped)
+        names = {g.name for g in nested}
+        if not any(names & {y.id for y in ast.walk(r.value) if isinstance(y, ast.Name)} for r in rets):
+            continue
+        n += 1
+        hits = closure_rerun_state(fi.node)
+        if not hits:
+            run.ok(rule, fi.where, fi.qualname, 'the step function grows nothing that belongs to the factory scope')
+        seen = set()
+        for nm, node, inner in hits:
+            if nm in seen:
+                continue
+            seen.add(nm)
+            run.fail(rule, where(ctx.repo, node), fi.qualname, 'factory-scope %s grown by the step function across runs' % nm,
+                     '%s is created when the step is constructed and %s() adds to it on every run: running the same Flow object '
+                     'again continues from what the previous run recorded' % (nm, inner))
+    return n
